@@ -218,6 +218,11 @@ func genSignCase(t *core.Tape, uniq string, mods []string) *signCase {
 			c.SigType = "msi-tar"
 		}
 	}
+	if t.Chance(1, 5, "odd-file-name") {
+		// characters that mean something in a URL: the name that is recorded is
+		// the name that was submitted, byte for byte
+		c.File = core.Pick(t, "odd-file-name-kind", "lib++", "a%2Bb", "50%25off ", "x+y=z&") + c.File
+	}
 	return c
 }
 
